@@ -746,6 +746,11 @@ class ImportanceNestedSampler(BaseNestedSampler):
             raise ValueError("`min_samples` must be less than `nlive`")
         if self.min_remove > self.nlive:
             raise ValueError("`min_remove` must be less than `nlive`")
+        if self.threshold_method not in ["entropy", "quantile"]:
+            raise ValueError(
+                f"Unknown threshold method: {self.threshold_method}. "
+                "Choose from: ['entropy', 'quantile']"
+            )
         logger.debug("Sampler configuration is valid")
         return True
 
